@@ -11,6 +11,8 @@ func installOracles(m *Monitors) {
 	m.oracles = []oracle{
 		&orC02{baseOracle: baseOracle{m}},
 		m.final,
+		&orC01{baseOracle: baseOracle{m}},
+		&orC03A{baseOracle: baseOracle{m}},
 	}
 }
 
